@@ -587,7 +587,7 @@ Hypothesis Hget : BvGetSpec.
 Theorem tail_spec : TailSpec.
 Proof.
   intros bin sufs Hok Hnd Hsz.
-  unfold tail_complete.
+  unfold tail_complete. rewrite !frev_eq.
   set (l := rev (SufSort.sort sufs)).
   assert (Hperm : Permutation sufs (rev l)).
   { subst l. rewrite rev_involutive. apply SufSort.Permuted_sort. }
@@ -601,7 +601,7 @@ Proof.
   change (mkTb [0] (if bin then [false] else []) 1 [] 0 []) with (tb_init bin).
   destruct (tb_fold_inv bin l (tb_init bin) [] (inv_init bin) Hne) as (st & Efold & Hinv & Hlen).
   { cbn [tb_init tb_len]. lia. }
-  rewrite Efold. cbn [bind]. rewrite app_nil_r in Hinv.
+  rewrite Efold. cbn [bind]. rewrite ?frev_eq. rewrite app_nil_r in Hinv.
   cbn [tb_init tb_len] in Hlen.
   destruct Hinv as [Hl [C' HC0] Htm _ Hasg].
   set (C := rev (tb_chars st)) in *. set (Tm := rev (tb_terms st)) in *.
